@@ -1,3 +1,4 @@
+import Dia.GlueThm
 import Dia.Dump
 import Dia.Exec
 import Dia.Server
